@@ -495,3 +495,103 @@ def _spec_sumsq(self, e, fr):
 
 
 X.Interp.spec_sumsq = _spec_sumsq
+
+
+# -- more of the 1-D vector fragment: np.dot(vector, matrix), element-wise abs -----------------------------------------
+def _np_dot(models, it, args, kw, fr, node):
+    v, m = args
+    if isinstance(v, Ref) and isinstance(it.run.obj(v), HSeq) and isinstance(m, SOpaque) and m.sort == "Mat":
+        o = it.run.obj(v)
+        va, _ = as_array(it, v)
+        f = it.ctx.uf("dot_vm", z3.ArraySort(INT, REAL), INT, it.ctx.sort("Mat"), z3.ArraySort(INT, REAL))
+        n = z3.simplify(o.hi - o.lo)
+        models.note(it, "opaque:np.dot(vector, matrix) (deterministic uninterpreted function; result has the vector's length for a square matrix)")
+        return it.run.alloc(HSeq(f(va, n, m.t), z3.IntVal(0), n, "Real", nd=True))
+    raise Unsupported("np.dot of %r, %r" % (v, m), node)
+
+
+_arrays.EXTRA_EXT["numpy.dot"] = _np_dot
+
+
+def _vec_abs(models_, it, args, kw, fr, node):
+    v = args[0]
+    if isinstance(v, Ref) and isinstance(it.run.obj(v), HSeq) and it.run.obj(v).nd:
+        o = it.run.obj(v)
+        i = z3.Int("i!vec")
+        x = o.arr[o.lo + i]
+        return it.run.alloc(HSeq(z3.Lambda([i], z3.If(x >= 0, x, -x)), z3.IntVal(0), z3.simplify(o.hi - o.lo), o.elem, nd=True))
+    return _orig_abs(models_, it, args, kw, fr, node)
+
+
+_orig_abs = None
+
+
+def _install_abs():
+    global _orig_abs
+    from .models import Models
+    orig_init = Models.__init__
+
+    def new_init(self):
+        global _orig_abs
+        orig_init(self)
+        _orig_abs = self.ext["numpy.abs"]
+        self.ext["numpy.abs"] = _vec_abs
+        self.ext["numpy.absolute"] = _vec_abs
+    Models.__init__ = new_init
+
+
+_install_abs()
+
+
+def _make_mat(models, it, reg, ty, name, fresh):
+    if ty == "Mat":
+        srt = it.ctx.sort("Mat")
+        return SOpaque("Mat", z3.Const(name, srt) if not fresh else it.run.fresh(srt, name))
+    if ty == "Vec":
+        arr = z3.Const(name + "!arr", z3.ArraySort(INT, REAL)) if not fresh else it.run.fresh(z3.ArraySort(INT, REAL), name + "!arr")
+        n = z3.Int(name + "!len") if not fresh else it.run.fresh("Int", name + "!len")
+        it.run.assume(n >= 0)
+        return it.run.alloc(HSeq(arr, z3.IntVal(0), n, "Real", nd=True))
+    return NotImplemented
+
+
+HOOKS["make_symbolic"].append(_make_mat)
+
+
+def _spec_seq_same(self, e, fr):
+    """the two sequences are the same array (extensional equality of the underlying arrays and lengths)"""
+    a = _hseq(self, self.ev(e.args[0], fr))
+    b = _hseq(self, self.ev(e.args[1], fr))
+    return AND(a.arr == b.arr, a.lo == b.lo, a.hi == b.hi)
+
+
+X.Interp.spec_seq_same = _spec_seq_same
+
+
+# spec-side vector constructors: the same lambda arrays the code's numpy expressions produce
+def _vop(op):
+    import ast as _ast
+
+    def f(self, e, fr):
+        a = self.ev(e.args[0], fr)
+        b = self.ev(e.args[1], fr)
+        return _vec_binop(self.ctx.models, self, op(), a, b, e)
+    return f
+
+
+import ast as _ast2  # noqa: E402
+X.Interp.spec_vsub = _vop(_ast2.Sub)
+X.Interp.spec_vadd = _vop(_ast2.Add)
+X.Interp.spec_vdiv = _vop(_ast2.Div)
+
+
+def _spec_vabs(self, e, fr):
+    return _vec_abs(self.ctx.models, self, [self.ev(e.args[0], fr)], {}, fr, e)
+
+
+def _spec_dotv(self, e, fr):
+    return _np_dot(self.ctx.models, self, [self.ev(e.args[0], fr), self.ev(e.args[1], fr)], {}, fr, e)
+
+
+X.Interp.spec_vabs = _spec_vabs
+X.Interp.spec_dotv = _spec_dotv
